@@ -30,6 +30,9 @@ type CtorCase struct {
 	N      int     `json:"n"`
 	Spec   []pbt.F `json:"spec,omitempty"`  // for pairs
 	DSpec  []int64 `json:"dspec,omitempty"` // for pairs
+	// Wrap (pairs): the set is handed to BucketPairs inside a Buckets type of the caller's own that
+	// embeds it - the caller's slice behind it must stay as it is just the same
+	Wrap bool `json:"wrap,omitempty"`
 }
 
 func genCtor(t *rapid.T) CtorCase {
@@ -80,6 +83,7 @@ func genCtor(t *rapid.T) CtorCase {
 		} else {
 			c.Spec = rapid.SliceOfN(pbt.FiniteFloat(), 0, 12).Draw(t, "spec")
 		}
+		c.Wrap = rapid.IntRange(0, 2).Draw(t, "wrap") == 0
 	}
 	return c
 }
@@ -290,7 +294,11 @@ func runCtor(c CtorCase) (pbt.Outcome, error) {
 				spec[:cap(spec)][i] = -7
 			}
 			before := append(tally.DurationBuckets(nil), spec[:cap(spec)]...)
-			pairs := tally.BucketPairs(spec)
+			var arg tally.Buckets = spec
+			if c.Wrap {
+				arg = wrapBuckets{spec}
+			}
+			pairs := tally.BucketPairs(arg)
 			for i := range before {
 				if before[i] != spec[:cap(spec)][i] {
 					errs.Addf("BucketPairs modified the caller's duration slice (or the spare capacity behind it): %v -> %v", before, spec[:cap(spec)])
@@ -299,7 +307,10 @@ func runCtor(c CtorCase) (pbt.Outcome, error) {
 			}
 			before = before[:len(spec)]
 			want := model.DurationPairs(before)
-			if len(pairs) != len(want) {
+			if c.Wrap {
+				// a type of the caller's own is not a DurationBuckets: its pairs are value pairs; only the
+				// ownership of the slice is judged
+			} else if len(pairs) != len(want) {
 				errs.Addf("BucketPairs(%v): %d pairs, want %d", before, len(pairs), len(want))
 			} else {
 				for i, p := range pairs {
@@ -319,7 +330,11 @@ func runCtor(c CtorCase) (pbt.Outcome, error) {
 				spec[:cap(spec)][i] = -7.25
 			}
 			before := append(tally.ValueBuckets(nil), spec[:cap(spec)]...)
-			pairs := tally.BucketPairs(spec)
+			var arg tally.Buckets = spec
+			if c.Wrap {
+				arg = wrapBuckets{spec}
+			}
+			pairs := tally.BucketPairs(arg)
 			for i := range before {
 				if math.Float64bits(before[i]) != math.Float64bits(spec[:cap(spec)][i]) {
 					errs.Addf("BucketPairs modified the caller's value slice (or the spare capacity behind it): %v -> %v", before, spec[:cap(spec)])
